@@ -8,7 +8,7 @@ pub open spec fn rec_fits<T: Types>(sm: RaftLogStateMachine<T>, rec: WALRecord<T
         WALRecord::TruncateAfter(Some(p)) => idx::<T>(p) < u64::MAX,
         WALRecord::PurgeUpto(u) => idx::<T>(u) < u64::MAX,
         // a State record is only specified when it keeps `last` (save_user_data, chunk heads) or nothing is live yet
-        WALRecord::State(s) => s.last == sm.log_state.last || (sm.log@.dom().is_empty() && sm.payload_cache.cache@.dom().is_empty() && oidx_ok::<T>(s.last)),
+        WALRecord::State(s) => oidx_ok::<T>(s.purged) && (s.last == sm.log_state.last || (sm.log@.dom().is_empty() && sm.payload_cache.cache@.dom().is_empty() && oidx_ok::<T>(s.last))),
         _ => true,
     }
 }
@@ -23,6 +23,7 @@ impl<T: Types> RaftLogStateMachine<T> {
         &&& self.payload_cache.inv()
         &&& self.cache_below_last()
         &&& oidx_ok::<T>(self.log_state.last)
+        &&& oidx_ok::<T>(self.log_state.purged)
     }
     /// I1-I3: index structure of the live entries (needs Raft-legal histories)
     pub open spec fn inv_idx(&self) -> bool {
@@ -38,5 +39,31 @@ impl<T: Types> RaftLogStateMachine<T> {
             WALRecord::PurgeUpto(u) => forall|i: u64| #[trigger] self.log@.contains_key(i) ==> (i <= idx::<T>(u) <==> le(self.log@[i].log_id, u)),
             _ => true,
         }
+    }
+}
+
+/// the index map after applying `rec` journaled at (chunk_id, segment): the reference step on the key set, values untouched
+pub open spec fn sm_index_step<T: Types>(o: RaftLogStateMachine<T>, n: RaftLogStateMachine<T>, rec: WALRecord<T>, chunk_id: ChunkId, segment: Segment) -> bool {
+    match rec {
+        WALRecord::Append(id, p) => n.log@ == o.log@.insert(idx::<T>(id), LogData { log_id: id, chunk_id, record_segment: segment }),
+        WALRecord::TruncateAfter(prev) => (forall|i: u64| #[trigger] n.log@.contains_key(i) <==> o.log@.contains_key(i) && i < onext::<T>(prev)) && (forall|i: u64| n.log@.contains_key(i) ==> #[trigger] n.log@[i] == o.log@[i]),
+        WALRecord::PurgeUpto(u) => (forall|i: u64| #[trigger] n.log@.contains_key(i) <==> o.log@.contains_key(i) && i > idx::<T>(u)) && (forall|i: u64| n.log@.contains_key(i) ==> #[trigger] n.log@[i] == o.log@[i]),
+        _ => n.log@ == o.log@,
+    }
+}
+/// the payload cache after applying `rec`: pinned entries survive, nothing foreign appears, limits respected up to pinning
+pub open spec fn sm_cache_step<T: Types>(oc: PayloadCache<T>, nc: PayloadCache<T>, rec: WALRecord<T>) -> bool {
+    match rec {
+        WALRecord::Append(id, p) => nc.keeps_pinned_of(&oc)
+            && (oc.pinned(id) ==> nc.cache@.contains_key(id))
+            && (forall|k: T::LogId| #[trigger] nc.cache@.contains_key(k) ==> (k == id && nc.cache@[k] == p) || (oc.cache@.contains_key(k) && nc.cache@[k] == oc.cache@[k]))
+            && (!nc.over_limit() || nc.all_pinned())
+            && (oc.cache@.len() + 1 <= oc.max_items && oc.size + T::spec_payload_size(&p) <= oc.capacity ==> nc.cache@ == oc.cache@.insert(id, p)),
+        WALRecord::TruncateAfter(Some(prev)) => nc.sub_of(&oc)
+            && (forall|k: T::LogId| #[trigger] oc.cache@.contains_key(k) ==> (nc.cache@.contains_key(k) <==> le(k, prev))),
+        WALRecord::TruncateAfter(None) => nc.cache@ == Map::<T::LogId, T::LogPayload>::empty(),
+        WALRecord::PurgeUpto(u) => nc.sub_of(&oc) && nc.keeps_pinned_of(&oc)
+            && (forall|k: T::LogId| #[trigger] oc.cache@.contains_key(k) ==> nc.cache@.contains_key(k) || (le(k, u) && !oc.pinned(k))),
+        _ => nc.cache@ == oc.cache@ && nc.size == oc.size,
     }
 }
